@@ -8,6 +8,7 @@ mod checksum;
 mod path;
 mod rng;
 mod segments;
+mod udp;
 mod util;
 
 use std::fs;
@@ -34,6 +35,7 @@ fn main() {
                 "segments" => segments::gen(seed, tier, &mut w, &mut stats),
                 "checksum" => checksum::gen(seed, tier, &mut w, &mut stats),
                 "path" => path::gen(seed, tier, &mut w, &mut stats),
+                "udp" => udp::gen(seed, tier, &mut w, &mut stats),
                 _ => panic!("unknown component {comp}"),
             }
             w.flush().unwrap();
@@ -49,6 +51,7 @@ fn main() {
                 "segments" => segments::run(&ops, &mut out, &mut orc),
                 "checksum" => checksum::run(&ops, &mut out, &mut orc),
                 "path" => path::run(&ops, &mut out, &mut orc),
+                "udp" => udp::run(&ops, &mut out, &mut orc),
                 _ => panic!("unknown component {comp}"),
             }
             out.flush().unwrap();
